@@ -147,6 +147,7 @@ fn knobs(run: &mut Run, seed: u64) {
     // (a') a slot of the leaf becomes redundant at some point of the history (k <= 4): the
     // permuted copies are then compared with M_cc ("restricted to non-redundant slots")
     run.set("redundant_at", if f.chance(1, 3) { 1 + f.below(4) as i64 } else { 0 });
+    run.set("redundant_two", Rng::stream(seed, "redundant-two").chance(1, 2) as i64);
     // (a'') (own stream) two classes with their own symmetries, merged afterwards
     let mut mr = Rng::stream(seed, "merge-two");
     if mr.chance(1, 2) {
@@ -422,7 +423,9 @@ impl GroupCheck {
             use crate::oracle::cc::Cc;
             let mut s2: Sess<LS, ()> = Sess::new(EGraph::new(()), run.get("naming") as u32);
             let mut cc = Cc::new(3 * k + 1);
-            let small = Tm::leaf(&format!("p{}", k - 1), (0..(k - 1) as S).collect());
+            // one slot of the leaf becomes redundant - or (knob) the last TWO at once, in a single union
+            let keep = if run.get("redundant_two") != 0 && k >= 3 { k - 2 } else { k - 1 };
+            let small = Tm::leaf(&format!("p{keep}"), (0..keep as S).collect());
             let at = (run.get("redundant_at") as usize - 1).min(gens.len());
             let r0 = catch_op(|| s2.add_term(&leaf, false));
             let Ok(h0) = r0 else {
@@ -487,7 +490,7 @@ impl GroupCheck {
                     if got2 != want {
                         out.violations.push(viol(
                             if got2 { "eq_outside_group" } else { "eq_misses_group_element" },
-                            format!("leaf p{k} with generators {:?} and p{k}(0..) = p{}(0..) asserted at step {at}: after {step} unions eq(old handle, {q:?}.new handle) = {got2}, M_cc says {want}", &gens[..gi.min(gens.len())], k - 1),
+                            format!("leaf p{k} with generators {:?} and p{k}(0..) = p{}(0..) asserted at step {at}: after {step} unions eq(old handle, {q:?}.new handle) = {got2}, M_cc says {want}", &gens[..gi.min(gens.len())], keep),
                             gi,
                         ));
                         return out;
@@ -495,7 +498,7 @@ impl GroupCheck {
                     if got != want {
                         out.violations.push(viol(
                             if got { "eq_outside_group" } else { "eq_misses_group_element" },
-                            format!("leaf p{k} with generators {:?} and p{k}(0..) = p{}(0..) asserted at step {at}: after {step} unions eq(old handle, {q:?}.old handle) = {got}, M_cc says {want}", &gens[..gi.min(gens.len())], k - 1),
+                            format!("leaf p{k} with generators {:?} and p{k}(0..) = p{}(0..) asserted at step {at}: after {step} unions eq(old handle, {q:?}.old handle) = {got}, M_cc says {want}", &gens[..gi.min(gens.len())], keep),
                             gi,
                         ));
                         return out;
